@@ -207,6 +207,11 @@ def locate_in(src, m, locators, lo, hi):
         if not mo:
             raise Undecided("bad locator `%s`" % loc)
         kind, rest = mo.group(1), mo.group(2).strip()
+        # `fn name#2`: the 2nd item of that name (cfg-alternatives of one function)
+        nth = None
+        mn = re.match(r"(.*?)\s*#(\d+)$", rest, re.S)
+        if mn and kind != "impl":
+            rest, nth = mn.group(1).strip(), int(mn.group(2))
         cands = []
         for (kw, name, s, e, bo) in scan_items(src, m, lo, hi):
             if kw != kind:
@@ -234,6 +239,8 @@ def locate_in(src, m, locators, lo, hi):
                     pass
             if len(ok) == 1:
                 return ok[0]
+        if nth is not None and len(cands) >= nth:
+            cands = [cands[nth - 1]]
         if len(cands) != 1:
             raise Undecided("LOST-ANCHOR: locator `%s` matched %d items" % (loc, len(cands)))
         s, e, bo = cands[0]
@@ -661,6 +668,46 @@ class Item:
                      "      let %s = &%s[vx_i];/*@body*/\n      if !(" % (var, recv, p, recv), "R3-all")
         self.rewrite(be, semi + 1, ") { %s = false; break; }\n      vx_i = vx_i + 1;\n    }" % var, "R3-all")
 
+    def r3_quantifier_path_expr(self, fn, k):
+        """tail expression `RECV.iter().all(PATH)` / `RECV.iter().any(PATH)` with PATH a function path (no closure)  ==>  the adapter's
+        definition, `all` or `any` as READ from the code:
+        { let mut vx_r = true|false; let mut vx_i = 0; while vx_i < RECV.len() { let vx_x = &RECV[vx_i]; let vx_b = PATH(vx_x);
+          if !vx_b | vx_b { vx_r = false|true; break; } vx_i += 1; } vx_r }"""
+        k0, _, bo, end, _ = self.fn_span(fn)
+        hits = list(re.finditer(r"\.\s*iter\s*\(\s*\)\s*\.\s*(all|any)\s*\(\s*([A-Za-z_][A-Za-z0-9_:]*)\s*\)", self.m[bo:end]))
+        if len(hits) < k:
+            raise Undecided("LOST-ANCHOR: R3 quantifier-path-expr #%d in fn %s of %s" % (k, fn, self.where()))
+        h = hits[k - 1]
+        which, path = h.group(1), h.group(2)
+        s0 = self._chain_start(bo + h.start())
+        recv = self.text[s0:bo + h.start()].strip()
+        if self.m[bo + h.end():end - 1].strip():
+            raise Undecided("R3 quantifier-path-expr: not the tail expression of fn %s" % fn)
+        init, test, hit = ("true", "!vx_b", "false") if which == "all" else ("false", "vx_b", "true")
+        self.rewrite(s0, bo + h.end(), "{ let mut vx_r = %s;\n  let mut vx_i: usize = 0;/*@pre*/\n  while vx_i < %s.len()\n  /*@loop*/\n  {\n    let vx_x = &%s[vx_i];/*@body*/\n"
+                     "    let vx_b = %s(vx_x);\n    if %s { vx_r = %s; break; }/*@tail*/\n    vx_i = vx_i + 1;\n  }\n  vx_r }" % (init, recv, recv, path, test, hit), "R3-quantifier-path")
+
+    def r3_sort_by_key_stmt(self, fn, k):
+        """statement `V.sort_by_key(|P| KEY);` / `V.sort_unstable_by_key(|P| KEY);`  ==>  `let ghost vx_key = |P: ELEM| KEY; let ghost vx_le = |a, b| vx_key(a).vx_ord_le(vx_key(b)); vx_sort_by(&mut V, Ghost(vx_le));`
+        (ELEM = the 4th argument of the directive): the KEY expression -- what the order depends on -- stays real text, now read as a
+        specification of the trusted std sort (a permutation, ascending in that key; VxOrd = std Ord of the key type)"""
+        k0, _, bo, end, _ = self.fn_span(fn)
+        hits = list(re.finditer(r"\.\s*sort(?:_unstable)?_by_key\s*\(", self.m[bo:end]))
+        if len(hits) < k or not getattr(self, "r3_extra", None):
+            raise Undecided("LOST-ANCHOR: R3 sort-by-key-stmt #%d in fn %s of %s" % (k, fn, self.where()))
+        h = hits[k - 1]
+        par = bo + h.end() - 1
+        p_, bs, be, close = self._closure_after(par)
+        s0 = self._stmt_start(bo + h.start())
+        while s0 < bo + h.start() and self.m[s0].isspace():
+            s0 += 1
+        var = self.text[s0:bo + h.start()].strip()
+        semi = self.m.find(";", close)
+        if not re.match(r"[A-Za-z_][A-Za-z0-9_.]*$", var) or self.text[close + 1:semi].strip() or not re.match(r"[A-Za-z_]\w*$", p_):
+            raise Undecided("R3 sort-by-key-stmt: statement shape not recognised at %s:%d" % (self.relpath, self.line_of(s0)))
+        self.rewrite(s0, bs, "/*@pre*//*@loop*/let ghost vx_key = |%s: %s| " % (p_, self.r3_extra[0]), "R3-sort-by-key")
+        self.rewrite(be, semi + 1, ";\n    let ghost vx_le = |vx_a: %s, vx_b: %s| vx_key(vx_a).vx_ord_le(vx_key(vx_b));\n    vx_sort_by(&mut %s, Ghost(vx_le));/*@tail*/" % (self.r3_extra[0], self.r3_extra[0], var), "R3-sort-by-key")
+
     def r3_find_map(self, fn, k):
         """let V = RECV.iter().find_map(|P| { S* ; E });  ==> index while-loop, first Some wins"""
         k0, _, bo, end, _ = self.fn_span(fn)
@@ -815,6 +862,8 @@ class Item:
         if re.search(r"\breturn\b|\?", self.m[bs:be]):
             raise Undecided("R3 retain-stmt: the closure body leaves early (return / ?)")
         s0 = self._stmt_start(bo + h.start())
+        while s0 < bo + h.start() and self.m[s0].isspace():
+            s0 += 1      # comments in front of the statement (blank in the mask) stay where they are
         var = self.text[s0:bo + h.start()].strip()
         semi = self.m.find(";", close)
         if not re.match(r"[A-Za-z_][A-Za-z0-9_.]*$", var) or self.text[close + 1:semi].strip() or not re.match(r"[A-Za-z_]\w*$", p_):
@@ -1328,6 +1377,52 @@ class Item:
         self.rewrite(bo + h.start(), close + 1, ";\n  let mut vx_r%s = None;/*@pre*/\n  loop\n  /*@loop*/\n  {\n    let Some(%s) = vx_fm%s.next() else { break; };/*@body*/\n    let vx_e%s = %s%s(%s);\n    if vx_e%s.is_some() { vx_r%s = vx_e%s; break; }/*@tail*/\n  }\n  vx_r%s }"
                      % (sfx, pname, sfx, sfx, prefix, lname, ", ".join(alist), sfx, sfx, sfx, sfx), "R3-lift-find-map")
 
+    def r3_lift_returned_closure(self, fn, k):
+        """a function whose TAIL expression is a stateful closure `move |P| { BODY }` handed back as `impl FnMut` (state = locals of the
+        function captured by value and mutated by BODY)  ==>  lambda lifting:
+          fn vx_lifted_<fn>_rc(P, c1: &mut T1, .., v1: V1, ..) -> R { BODY with every state variable ci read as (*ci) }
+        and the closure expression itself becomes `vx_rc_<fn>(c1, ..)` (a shim of the unit that carries the INITIAL state, so that the
+        function's own contract can state it).  Captures and types come from `liftparams`, as for the other lift shapes."""
+        if fn not in getattr(self, "lift", {}):
+            raise Undecided("R3 lift-returned-closure: no liftparams for fn %s" % fn)
+        pdecl, caps, rty, prefix, contract = self.lift[fn]
+        k0, _, bo, end, _ = self.fn_span(fn)
+        hits = list(re.finditer(r"(?:\bmove\s*)?\|([^|]*)\|\s*\{", self.m[bo:end]))
+        if not hits:
+            raise Undecided("LOST-ANCHOR: R3 lift-returned-closure in fn %s of %s" % (fn, self.where()))
+        h = hits[-1]
+        cs = bo + h.start()
+        bs = bo + h.end() - 1
+        bc = match_brace(self.m, bs)
+        if self.m[bc + 1:end - 1].strip():
+            raise Undecided("R3 lift-returned-closure: the closure is not the tail expression of fn %s" % fn)
+        pname = pdecl.split(":")[0].strip()
+        if re.sub(r"\s+", "", h.group(1).split(":")[0]) != re.sub(r"\s+", "", pname):
+            raise Undecided("R3 lift-returned-closure: closure parameter is `%s`, liftparams says `%s`" % (h.group(1), pname))
+        capl = split_top(caps)
+        body = self.text[bs:bc + 1]
+        mbody = mask(body)
+        for c in capl:
+            if c.startswith("="):
+                continue
+            cn = c.split(":")[0].strip()
+            out, last = [], 0
+            for mm in re.finditer(r"(?<![A-Za-z0-9_\.])%s(?![A-Za-z0-9_])" % re.escape(cn), mbody):
+                out.append(body[last:mm.start()]); out.append("(*%s)" % cn); last = mm.end()
+            out.append(body[last:])
+            body = "".join(out)
+            mbody = mask(body)
+        plist, state = [pdecl], []
+        for c in capl:
+            if c.startswith("="):
+                plist.append(c[1:].strip())
+            else:
+                plist.append("%s: &mut %s" % (c.split(":")[0].strip(), c.split(":", 1)[1].strip())); state.append(c.split(":")[0].strip())
+        lname = "vx_lifted_%s_rc" % fn
+        lifted = "fn %s%s(%s) -> (vx_r: %s)\n/*+vx*/%s/*-vx*/\n%s\n\n" % (lname, getattr(self, "lift_generics", {}).get(fn, ""), ", ".join(plist), rty, contract, body)
+        self.rewrite(self._stmt_start(k0), self._stmt_start(k0), lifted, "R3-lift-returned-closure")
+        self.rewrite(cs, bc + 1, "vx_rc_%s(%s)" % (fn, ", ".join(state)), "R3-lift-returned-closure")
+
     def r3_for_index(self, fn, k, mode="ref"):
         """for X in RECV { BODY }  (RECV a slice/Vec/&Vec expression) ==> index while-loop;
         `continue` inside BODY is preceded by the index increment; BODY stays in place.
@@ -1805,9 +1900,17 @@ def build_unit(unit_path, repo=REPO):
                         break
                     j_ += 1
                 it.ghost(j_ + 1, "\n" + payload + "\n")
-            elif name == "R3":
+            elif name in ("R3", "R3opt"):
                 it.pending_r3 = getattr(it, "pending_r3", []) + [(args[0], args[1], int(args[2]) if len(args) > 2 else 1, payload)]
-                it.d_R3(args[0], args[1], int(args[2]) if len(args) > 2 else 1)
+                it.r3_extra = args[3:]
+                try:
+                    it.d_R3(args[0], args[1], int(args[2]) if len(args) > 2 else 1)
+                except Undecided as e_:
+                    # R3opt: the statement the shape stands for may be absent (then its ghost payload is dropped with it, and
+                    # the function's contract has to hold without it)
+                    if name == "R3opt" and "LOST-ANCHOR" in str(e_):
+                        continue
+                    raise
                 if payload is not None:
                     # payload = invariant for the generated loop
                     for ei in range(len(it.edits) - 1, -1, -1):
@@ -2154,6 +2257,9 @@ def verify_unit(unit, workdir, repo=REPO, rlimit=None):
             continue
         kind = classify(msg)
         spans = d.get("spans", [])
+        # spans inside macro expansions (matches!, assert!) may point into other files: only those of the generated file count
+        own = [s for s in spans if os.path.basename(s.get("file_name", "")) == os.path.basename(gpath)]
+        spans = own or spans
         prim = [s for s in spans if s.get("is_primary")] or spans
         line = prim[0]["line_start"] if prim else 0
         # the function that owns the failure: for a failed postcondition the primary span is the
